@@ -192,6 +192,21 @@ class Interp:
         raise Raised("ValueError", f"{value} is not a valid {cls_name}")
 
     # ---- exception hierarchy --------------------------------------------------------
+    def _exc_names(self, node, env):
+        """class names an `except <node>` clause catches; a name bound to a class / tuple of classes is followed"""
+        if isinstance(node, ast.Tuple):
+            out = []
+            for x in node.elts:
+                out.extend(self._exc_names(x, env))
+            return out
+        if isinstance(node, ast.Name) and node.id in env:
+            v = env[node.id]
+            if isinstance(v, ClassTok):
+                return [v.name.split(".")[-1].split(":")[-1]]
+            if isinstance(v, (tuple, list)):
+                return [x.name.split(".")[-1].split(":")[-1] if isinstance(x, ClassTok) else str(x) for x in v]
+        return [(dotted(node) or "").split(".")[-1]]
+
     def exc_matches(self, raised: str, handler: str) -> bool:
         if handler in ("Exception", "BaseException") or raised == handler:
             return True
@@ -438,10 +453,17 @@ class Interp:
             if st.exc is None:
                 raise Raised(env.get("__current_exc__", "Exception"))
             e = st.exc
-            if isinstance(e, ast.Call):
-                nm = dotted(e.func)
-            else:
-                nm = dotted(e)
+            head = e.func if isinstance(e, ast.Call) else e
+            nm = dotted(head)
+            # the raised class is what the name is bound to (a parameter or local may hold an exception class)
+            if isinstance(head, ast.Name) and head.id in env:
+                v = env[head.id]
+                if isinstance(v, ClassTok):
+                    nm = v.name
+                elif isinstance(v, Obj):
+                    nm = v.cls_name
+                elif isinstance(v, Raised):
+                    raise v
             raise Raised((nm or "Exception").split(".")[-1])
         elif t is ast.Pass:
             return
@@ -498,28 +520,27 @@ class Interp:
             raise _Continue()
         elif t is ast.Try:
             try:
-                self.exec_block(st.body, env, func, depth)
-            except Raised as r:
-                for h in st.handlers:
-                    names = []
-                    if h.type is None:
-                        names = ["Exception"]
-                    elif isinstance(h.type, ast.Tuple):
-                        names = [(dotted(x) or "").split(".")[-1] for x in h.type.elts]
+                try:
+                    self.exec_block(st.body, env, func, depth)
+                except Raised as r:
+                    for h in st.handlers:
+                        names = ["Exception"] if h.type is None else self._exc_names(h.type, env)
+                        if any(self.exc_matches(r.exc_name, n) for n in names):
+                            if h.name:
+                                env[h.name] = r
+                            prev = env.get("__current_exc__")
+                            env["__current_exc__"] = r.exc_name
+                            self.exec_block(h.body, env, func, depth)
+                            if prev is not None:
+                                env["__current_exc__"] = prev
+                            break
                     else:
-                        names = [(dotted(h.type) or "").split(".")[-1]]
-                    if any(self.exc_matches(r.exc_name, n) for n in names):
-                        if h.name:
-                            env[h.name] = Opaque("exception")
-                        env["__current_exc__"] = r.exc_name
-                        self.exec_block(h.body, env, func, depth)
-                        break
+                        raise
                 else:
-                    self.exec_block(st.finalbody, env, func, depth)
-                    raise
-            else:
-                self.exec_block(st.orelse, env, func, depth)
-            self.exec_block(st.finalbody, env, func, depth)
+                    self.exec_block(st.orelse, env, func, depth)
+            finally:
+                # (a finally block that itself raises replaces the propagating exception, as in Python)
+                self.exec_block(st.finalbody, env, func, depth)
         elif t is ast.FunctionDef:
             env[st.name] = ("closure", func.nested.get(st.name) or Func(st.name, st, func.module, func.cls, func), env)
         elif t is ast.ImportFrom:
@@ -1024,6 +1045,8 @@ class Interp:
                 return f"{v.cls}.{v.name}"
         if type(v).__module__ in ("uuid",):
             return str(v)
+        if isinstance(v, Raised):
+            return Opaque("exception message")
         return self.py_repr(v, depth)
 
     def py_repr(self, v, depth=0):
